@@ -165,7 +165,7 @@ def run(ctx):
             if mode < 0.15:
                 x = g.string(nfrag=1, length=rng.choice([300, 900, 1500]), ring_dense=True)
             else:
-                x = g.string(nfrag=rng.choice([1, 1, 2, 3]), length=length)
+                x = g.string(nfrag=rng.choice([1, 1, 2, 3, 3, 12, 40]), length=length if rng.random() < 0.8 else 10)
             m = j.one(x, "G2")
             if m is not None:
                 if len(m.atoms) >= 50:
